@@ -186,6 +186,21 @@ func (s tStmt) proto() *gripql.GraphStatement {
 		return &gripql.GraphStatement{Statement: &gripql.GraphStatement_Skip{Skip: uint32(s.N)}}
 	case "range":
 		return &gripql.GraphStatement{Statement: &gripql.GraphStatement_Range{Range: &gripql.Range{Start: int32(s.N), Stop: int32(s.M)}}}
+	case "set":
+		v, _ := structpb.NewValue(normArg(s.Tpl))
+		return &gripql.GraphStatement{Statement: &gripql.GraphStatement_Set{Set: &gripql.Set{Key: s.Str, Value: v}}}
+	case "increment":
+		return &gripql.GraphStatement{Statement: &gripql.GraphStatement_Increment{Increment: &gripql.Increment{Key: s.Str, Value: int32(s.N)}}}
+	case "mark":
+		return &gripql.GraphStatement{Statement: &gripql.GraphStatement_Mark{Mark: s.Str}}
+	case "jump":
+		var e *gripql.HasExpression
+		if s.Has != nil {
+			e = s.Has.proto()
+		}
+		return &gripql.GraphStatement{Statement: &gripql.GraphStatement_Jump{Jump: &gripql.Jump{Mark: s.Str, Expression: e, Emit: s.N != 0}}}
+	case "empty":
+		return &gripql.GraphStatement{}
 	case "aggregate":
 		return &gripql.GraphStatement{Statement: &gripql.GraphStatement_Aggregate{Aggregate: &gripql.Aggregations{Aggregations: aggsProto(s.Aggs)}}}
 	}
